@@ -16,20 +16,23 @@ import sys
 from pathlib import Path
 
 ID = "C05"
-LEVEL_TEXT = ("Theorems for all member lists / statement lists / module tables: is_wildcard_exposed selects exactly CPython's `import *` set "
-              "(__all__ when defined, else the non-underscore names) for modules without un-imported submodules; the visitor plus the line-number "
-              "overwrite rule of expand_wildcards binds every name to the same object as sequential execution (later statement wins) for bodies "
-              "with strictly increasing line numbers; processing modules in dependency order with these per-module rules yields CPython's "
-              "namespaces and __all__ lists for every acyclic program of the statement grammar; Alias.members rebases every path under the alias. "
-              "The faithful model of the real traversal (seen-sets, early return, pending expansions) refutes the full property in six ways, each "
-              "proved by computation and replayed on the implementation (findings F1-F6). The model is tied to the code by differential runs "
-              "(model vs griffe.load vs a fresh interpreter) on generated packages.")
-LEVEL_NOTE = ("Trusted: Coq kernel, extraction, the package->model abstraction in this file, CPython as authority. The link between the real "
-              "traversal order of expand_exports/expand_wildcards and the dependency-order schedule used in the composition theorem is NOT proved: "
-              "it is checked on every generated package whose model run reports no gap event (stat real_vs_sched_compared). Submodule attributes "
-              "bound on a package by the import system are outside py_import (compared modulo such names). Docstring/labels/parameters of "
-              "presented aliases are checked on the implementation only (the model carries kinds and paths). The second expand_wildcards pass of "
-              "resolve_aliases is not modelled; it only matters after finding F3 leaked a pseudo-member, and those packages skip (C).")
+LEVEL_TEXT = ("Theorems for all member lists / statement lists: is_wildcard_exposed selects exactly CPython's `import *` set (__all__ when defined, "
+              "else the non-underscore names) for modules without un-imported submodules; the visitor plus the line-number overwrite rule of "
+              "expand_wildcards binds every name to the member that executing the statements in order binds (later statement wins), for bodies "
+              "with one statement per line, any number and order of wildcard imports; with that, one module's members and CPython's namespace bind "
+              "the same names to related targets given related imports (the induction step of the composition over a dependency order); an __all__ "
+              "assembled from strings and other modules' __all__ in any mix expands to exactly CPython's list; Alias.members rebases every path under "
+              "the alias. The faithful model of the real traversal (seen-sets, early return, pending expansions, KeyError skips) refutes the full "
+              "property in eight ways, each proved by computation on a witness that is replayed on the implementation (findings F1-F8). The model "
+              "is tied to the code by differential runs: model vs griffe.load vs a fresh interpreter on generated packages.")
+LEVEL_NOTE = ("Trusted: Coq kernel, extraction, the package->model abstraction in this file, CPython as authority. NOT proved: (1) the composition of "
+              "the per-module theorems into `griffe_sched = py_import` for whole acyclic programs (the step is proved, the induction over the order "
+              "and the fuel bound of `final` are not); (2) that the real traversal (griffe_load) equals the dependency-order schedule (griffe_sched) "
+              "when no gap event is reported: both are checked on every generated package instead (stats real_vs_sched_compared, direct). Submodule "
+              "attributes bound on a package by the import system are outside py_import (compared modulo such names; finding F5 is classified by "
+              "signature). Docstring/labels/parameters of presented aliases are checked on the implementation only (the model carries kinds and "
+              "paths). The second expand_wildcards pass of resolve_aliases and alias-resolution caching are not modelled: packages where finding F3 "
+              "leaked an `a/b/*` pseudo-member skip (C), and names whose alias chain crosses a replaced alias member accept either target (F7).")
 MODEL = ("Model.C05_imports", "run_C05")
 COQ_TARGETS = ["Proofs/C05_imports.vo"]
 RULE = ("hand-written packages (one per rule of the anchored code) and the six finding witnesses; seeded random packages in two streams: flat "
@@ -1089,7 +1092,10 @@ def check_packages(ctx, pkgs, stream, direct=True):
         # ---- (C) faithful model vs implementation (needs no interpreter: also run on packages the interpreter rejects)
         ctx.observe("model_outcome", "crash:" + ml["error"] if ml["error"] else "f1+f3" if ml["f1"] and ml["f3"] else "f1" if ml["f1"] else
                     "f3-leak" if ml["f3"] and leak else "f3" if ml["f3"] else "clean")
-        if ml["unsupported"]:
+        if ml["error"] and ml["error"].startswith("model:"):
+            ctx.tie_failure("harness", "the model ran out of fuel or rejected its input", ml["error"], case)
+            dmi = []
+        elif ml["unsupported"]:
             ctx.count("model_unsupported")
             dmi = []
         elif leak:
@@ -1173,10 +1179,10 @@ def replay_witnesses(ctx):
 def explore(ctx):
     replay_witnesses(ctx)
     check_packages(ctx, hand_packages(), "hand")
-    n_flat = ctx.budget(1000, 12000)
-    n_rich = ctx.budget(2000, 30000)
+    n_flat = ctx.budget(1000, 8000)
+    n_rich = ctx.budget(2000, 20000)
     k = 0
-    for stream, n, rich in (("flat", n_flat, False), ("rich", n_rich, True), ("cyclic", ctx.budget(300, 3000), True)):
+    for stream, n, rich in (("flat", n_flat, False), ("rich", n_rich, True), ("cyclic", ctx.budget(300, 2000), True)):
         done = 0
         while done < n:
             m = min(400, n - done)
